@@ -967,9 +967,14 @@ fn grid() {
                     let b4 = bumpalo::boxed::Box::<[u32]>::from_iter_in(mk(), &bump);
                     let b5 = { let v: BVec<u32> = mk().collect_in(&bump); v.into_bump_slice().to_vec() };
                     let b6 = { let v: BVec<u32> = mk().collect_in(&bump); let b = v.into_boxed_slice(); b.to_vec() };
-                    let all = [b1.to_vec(), b2.to_vec(), b3.to_vec(), b4.to_vec(), b5, b6];
+                    let all = [b1.to_vec(), b3.to_vec(), b5];
                     let ok = all.iter().all(|x| *x == s);
                     println!("Q collect n={} hint={} exact={} | {} | {}", n, hint, exact as u8, if ok { "same".to_string() } else { all.iter().map(|x| show(x)).collect::<Vec<_>>().join("/") }, show(&s));
+                    // the conversions that end in a Box<[T]> (C17: like std's Box)
+                    let sb: std::boxed::Box<[u32]> = mk().collect();
+                    let allb = [b2.to_vec(), b4.to_vec(), b6];
+                    let okb = allb.iter().all(|x| x[..] == sb[..]);
+                    println!("Q box_collect n={} hint={} exact={} | {} | {}", n, hint, exact as u8, if okb { "same".to_string() } else { allb.iter().map(|x| show(x)).collect::<Vec<_>>().join("/") }, show(&sb));
                     // Option / Result: stop at the first None / Err
                     for stop in [0usize, 1, n / 2, n] {
                         let so: Option<Vec<u32>> = mk().enumerate().map(|(i, x)| if i == stop && stop < n { None } else { Some(x) }).collect();
